@@ -763,7 +763,8 @@ impl<'a> FmtVisitor<'a> {
                 }
                 (Const(ca), Const(cb)) => ca.ident.as_str().cmp(cb.ident.as_str()),
                 (MacCall(..), MacCall(..)) => Ordering::Equal,
-                (Fn(..), Fn(..)) | (Delegation(..), Delegation(..)) => {
+                (Fn(..), Fn(..))
+                | (Delegation(..) | DelegationMac(..), Delegation(..) | DelegationMac(..)) => {
                     a.span.lo().cmp(&b.span.lo())
                 }
                 (Type(ty), _) if is_type(&ty.ty) => Ordering::Less,
